@@ -753,7 +753,7 @@ class RulesMixin:
             return None
         old = self.snapshot_env({"self": obj})
         stable = set()
-        if obj is self.unit_self and getattr(self, "havoc_with_rely", True):
+        if obj is self.unit_self and (getattr(self, "havoc_with_rely", True) or getattr(self, "loop_keeps_stable", False)):
             # fields that only this unit's task writes (other tasks prove they leave them alone,
             # see the task_rely clause that goes with task_stable)
             stable = set(cc.task_stable.get(self.own_task(), []))
@@ -1018,7 +1018,13 @@ class RulesMixin:
             for a in sorted(only_attrs):
                 self.havoc_field(fr.locals["self"], a)
         if heap:
-            self.havoc_all(use_rely=False)
+            # fields only this task assigns keep their identity across iterations; that the body
+            # does not assign them is checked at the back edge
+            self.loop_keeps_stable = True
+            try:
+                self.havoc_all(use_rely=False)
+            finally:
+                self.loop_keeps_stable = False
             tr = self.traces
             for k in list(tr):
                 tr[k] = [TraceGap(label)]
@@ -1054,9 +1060,18 @@ class RulesMixin:
             c = self.ev(s.test, fr)
             if not ops.truth_branch(ctx, c, f"while@{s.lineno}"):
                 return False
+        stable_before = {}
+        if heap and self.unit_self is not None:
+            cc_ = self.class_contract(self.unit_self)
+            if cc_ is not None:
+                for f_ in cc_.task_stable.get(self.own_task(), []):
+                    stable_before[f_] = self.unit_self.fields.get(f_, UNSET)
         r = self.run_body(s.body, fr)
         if r == "break":
             return True
+        for f_, v_ in stable_before.items():
+            same = self.unit_self.fields.get(f_, UNSET) is v_
+            ctx.prove(f"{unit}.{label}.stable.{f_}", z3.BoolVal(same), f"self.{f_} is not reassigned by the loop body", fr.where(), note="task-stable field across a loop iteration")
         # back edge: invariant preserved
         nxt = mk_int(i + 1) if i is not None else 0
         for cl in invs:
